@@ -482,6 +482,14 @@ def _hv_truth(prog):
     return hv_truth(prog)
 
 
+def _ep_operand(prog):
+    # a branch condition may be one bare expression (refinement(x.fragile), a base HasType(...) that is refined): it is judged by the truth of
+    # its value because it stands below a selector - every logical operator, the rule selectors included, is a condition position
+    from .c01 import ep_operand
+
+    return ep_operand(prog)
+
+
 def _cond_fold(prog):
     from .c01 import cond_fold
 
@@ -509,7 +517,7 @@ def run(prog: Program, tier: str) -> List[RuleResult]:
             # refinement(...) / alternative(...) / next_rule(...) fold the conditions of a branch like and_(...) does: none is dropped for being False
             guard(lambda: _cond_fold(prog)),
             # the surgery finds the operand that held the old node by identity
-            guard(lambda: expr_identity(prog))]
+            guard(lambda: expr_identity(prog)), guard(lambda: _ep_operand(prog))]
 
 
 NODE_FIELDS = ("left", "right", "_parent_", "_child_", "variable", "condition", "_var_", "_conditions_root_", "_root_")
